@@ -230,6 +230,13 @@ def run(run):
         c01.signature_parser(run, F, Prov(A), "R5")
     finally:
         run.rid_prefix = ""
+    # the result code the command produced is the one the client reads: reply assembly (rule R8 of C13) under the prefix A.
+    from . import c13
+    run.rid_prefix = "A."
+    try:
+        c13.reply_assembly(run, "R8")
+    finally:
+        run.rid_prefix = ""
 
     # ------------------------------------------------------------------ R4
     run.rule("R4", "HSM2DongleErrorResult (a status word in the device's own error range) cannot escape "
